@@ -8,6 +8,22 @@ for l in open(sys.argv[1]):
     if m: names.add(m.group(2))
     m = re.match(r'^[-+ ]func\s*(\([^)]*\)\s*)?(\w+)', l)
     if m: names.add(m.group(2))
+# the hunk header shows whatever line git's heuristic picked (a label, for instance): also find the enclosing function
+# of every hunk by line number in /repo's file
+cur = None
+for l in open(sys.argv[1]):
+    m = re.match(r'^--- a/(\S+)', l)
+    if m: cur = m.group(1); continue
+    m = re.match(r'^@@ -(\d+)(?:,(\d+))? ', l)
+    if m and cur and cur.endswith('.go'):
+        try: lines = open('/repo/' + cur).read().splitlines()
+        except OSError: continue
+        start, n = int(m.group(1)), int(m.group(2) or 1)
+        for i in range(min(start + n, len(lines)) - 1, -1, -1):
+            fm = re.match(r'^func\s*(\([^)]*\)\s*)?(\w+)', lines[i])
+            if fm:
+                if i + 1 <= start + n: names.add(fm.group(2))
+                if i + 1 <= start: break
 ids = []
 for f in sorted(glob.glob('/verif/ledger/C*.json')):
     fs = json.load(open(f)).get('functions', {})
